@@ -886,7 +886,7 @@ func (req *IdpAuthnRequest) MakeAssertionEl() error {
 	{
 		doc := etree.NewDocument()
 		doc.SetRoot(signedAssertionEl)
-		signedAssertionBuf, err = doc.WriteToBytes()
+		signedAssertionBuf, err = documentBytes(doc)
 		if err != nil {
 			return err
 		}
@@ -930,7 +930,7 @@ func (req *IdpAuthnRequest) PostBinding() (IdpAuthnRequestForm, error) {
 
 	doc := etree.NewDocument()
 	doc.SetRoot(req.ResponseEl)
-	responseBuf, err := doc.WriteToBytes()
+	responseBuf, err := documentBytes(doc)
 	if err != nil {
 		return form, err
 	}
@@ -1030,7 +1030,7 @@ func (req *IdpAuthnRequest) getSPEncryptionCert() (*x509.Certificate, error) {
 func unmarshalEtreeHack(el *etree.Element, v interface{}) error {
 	doc := etree.NewDocument()
 	doc.SetRoot(el)
-	buf, err := doc.WriteToBytes()
+	buf, err := documentBytes(doc)
 	if err != nil {
 		return err
 	}
